@@ -86,10 +86,14 @@ impl Rpc {
 #[async_trait]
 impl ClnRpc for Rpc {
     async fn datastore(&self, request: &DatastoreRequest) -> Result<DatastoreResponse, RpcError> {
+        #[cfg(breez_trampoline_verif)]
+        return crate::verif::seam::rpc_call(&self.rpc_file, request).await;
         Ok(self.rpc().await?.call_typed(request).await?)
     }
 
     async fn get_info(&self) -> Result<GetinfoResponse, RpcError> {
+        #[cfg(breez_trampoline_verif)]
+        return crate::verif::seam::rpc_call(&self.rpc_file, &GetinfoRequest {}).await;
         Ok(self.rpc().await?.call_typed(&GetinfoRequest {}).await?)
     }
 
@@ -97,6 +101,8 @@ impl ClnRpc for Rpc {
         &self,
         request: &ListdatastoreRequest,
     ) -> Result<ListdatastoreResponse, RpcError> {
+        #[cfg(breez_trampoline_verif)]
+        return crate::verif::seam::rpc_call(&self.rpc_file, request).await;
         Ok(self.rpc().await?.call_typed(request).await?)
     }
 
@@ -104,10 +110,14 @@ impl ClnRpc for Rpc {
         &self,
         request: &ListsendpaysRequest,
     ) -> Result<ListsendpaysResponse, RpcError> {
+        #[cfg(breez_trampoline_verif)]
+        return crate::verif::seam::rpc_call(&self.rpc_file, request).await;
         Ok(self.rpc().await?.call_typed(request).await?)
     }
 
     async fn pay(&self, request: &PayRequest) -> Result<PayResponse, RpcError> {
+        #[cfg(breez_trampoline_verif)]
+        return crate::verif::seam::rpc_call(&self.rpc_file, request).await;
         Ok(self.rpc().await?.call_typed(request).await?)
     }
 
@@ -115,6 +125,8 @@ impl ClnRpc for Rpc {
         &self,
         request: WaitsendpayRequest,
     ) -> Result<WaitsendpayResponse, RpcError> {
+        #[cfg(breez_trampoline_verif)]
+        return crate::verif::seam::rpc_call(&self.rpc_file, &request).await;
         Ok(self.rpc().await?.call_typed(&request).await?)
     }
 }
